@@ -114,7 +114,7 @@ def _nontrivial_case(d):
 def _run_tables(ctx, rt, binp, cases, tables, dev, inst, tag, invariant, extra_args=()):
     """(B)+(C) for the decision tables. Returns dict(viol=[(what, replay)], known=set, lines, samples, distinct, nontriv)"""
     pid, tier, seed = ctx["pid"], ctx["tier"], ctx["seed"]
-    tr = os.path.join(rt.OUT, "traces", "%s_%s_%s.ndjson" % (pid, tier, tag))
+    tr = os.path.join(rt.OUT, "traces" if rt.REPO == "/repo" else "traces_alt_%d" % os.getpid(), "%s_%s_%s.ndjson" % (pid, tier, tag))
     os.makedirs(os.path.dirname(tr), exist_ok=True)
     cmd = [binp, "tables", cases, tr, "seed=%d" % seed, "inst=%d" % inst, "tables=" + ",".join(tables), "tier=" + tier] + list(extra_args)
     rc, out = rt.sh(cmd, timeout=3000, env={"VERIF_DEV": ",".join(dev)})
@@ -368,7 +368,7 @@ def _hist_stats(trace):
 
 def _run_hist(ctx, rt, binp, dev, prof, pi):
     pid, tier, seed = ctx["pid"], ctx["tier"], ctx["seed"]
-    tr = os.path.join(rt.OUT, "traces", "%s_%s_hist%d.ndjson" % (pid, tier, pi))
+    tr = os.path.join(rt.OUT, "traces" if rt.REPO == "/repo" else "traces_alt_%d" % os.getpid(), "%s_%s_hist%d.ndjson" % (pid, tier, pi))
     os.makedirs(os.path.dirname(tr), exist_ok=True)
     prof = dict(prof)
     prof.setdefault("seed", seed * 1000 + pi)
